@@ -75,7 +75,10 @@ func RecvQueued[C Receiver[V], V any](ch C, maxValues int) []V {
 	var buffer []V
 	for len(buffer) < maxValues {
 		select {
-		case v := <-ch:
+		case v, ok := <-ch:
+			if !ok {
+				return buffer
+			}
 			buffer = append(buffer, v)
 		default:
 			return buffer
@@ -92,7 +95,10 @@ func RecvQueuedFull[C Receiver[V], B ~[]V, V any](ch C, buf B) int {
 	var index int
 	for index < len(buf) {
 		select {
-		case v := <-ch:
+		case v, ok := <-ch:
+			if !ok {
+				return index
+			}
 			buf[index] = v
 			index++
 		default:
